@@ -222,3 +222,54 @@ func ParseHostLine(line string) (HostLine, string) {
 	l.Comment = trimBlanks(s)
 	return l, Key
 }
+
+// ---- literal transcriptions of OpenSSH's two scanners --------------------------------
+// (auth2-pubkeyfile.c auth_check_authkey_line / ssh-keygen.c do_fingerprint for
+// the line splitting, auth-options.c opt_dequote for quoted values). Both treat
+// exactly the two-character sequence backslash,quote as an escaped quote; a
+// backslash before anything else (another backslash, a comma, a blank, the end
+// of the value) is an ordinary character. Consequences: in `\\"` the quote is
+// escaped (the character before it is a backslash), a value can never end in a
+// backslash (`"dir C:\"` is an unterminated quotation).
+
+// ScanOptionsPairs is the sshd loop: advance over the options, skipping
+// backslash-quote pairs, toggling on other quotes, stopping at the first
+// unquoted blank. It returns the index of that blank, or -1 when the line ends
+// first (no key can follow / quotation never closed).
+func ScanOptionsPairs(s string) int {
+	quoted := false
+	i := 0
+	for ; i < len(s) && (quoted || !blank(s[i])); i++ {
+		if s[i] == '\\' && i+1 < len(s) && s[i+1] == '"' {
+			i++ // skip both
+		} else if s[i] == '"' {
+			quoted = !quoted
+		}
+	}
+	if i >= len(s) {
+		return -1
+	}
+	return i
+}
+
+// Dequote is opt_dequote: s must start with a double quote; the value runs to
+// the next quote that is not part of a backslash-quote pair, with each such
+// pair reduced to a quote. rest is what follows the closing quote.
+func Dequote(s string) (val, rest string, ok bool) {
+	if len(s) == 0 || s[0] != '"' {
+		return "", "", false // missing start quote
+	}
+	i := 1
+	var out []byte
+	for i < len(s) && s[i] != '"' {
+		if s[i] == '\\' && i+1 < len(s) && s[i+1] == '"' {
+			i++
+		}
+		out = append(out, s[i])
+		i++
+	}
+	if i >= len(s) {
+		return "", "", false // missing end quote
+	}
+	return string(out), s[i+1:], true
+}
